@@ -949,6 +949,10 @@ func prepareDeltaBuild(options Options, repository *git.Repository) (repos map[f
 	// branch name -> git worktree at most current commit
 	branchToCurrentTree := make(map[string]*object.Tree, len(branches))
 
+	// branch name -> matcher for the ignore file of the branch's current commit.
+	// Like a normal build, a delta build must not index the files it excludes.
+	branchToIgnore := make(map[string]*ignore.Matcher, len(branches))
+
 	for _, b := range branches {
 		commit, err := getCommit(repository, options.BranchPrefix, b)
 		if err != nil {
@@ -960,7 +964,13 @@ func prepareDeltaBuild(options Options, repository *git.Repository) (repos map[f
 			return nil, nil, nil, fmt.Errorf("getting current git tree for branch %q: %w", b, err)
 		}
 
+		ig, err := newIgnoreMatcher(tree)
+		if err != nil {
+			return nil, nil, nil, fmt.Errorf("reading ignore file for branch %q: %w", b, err)
+		}
+
 		branchToCurrentTree[b] = tree
+		branchToIgnore[b] = ig
 	}
 
 	rawURL := options.BuildOptions.RepositoryDescription.URL
@@ -970,6 +980,11 @@ func prepareDeltaBuild(options Options, repository *git.Repository) (repos map[f
 	}
 
 	// TODO: Support repository submodules for delta builds
+
+	ignored := func(branch, path string) bool {
+		ig := branchToIgnore[branch]
+		return ig != nil && ig.Match(path)
+	}
 
 	// loop over all branches, calculate the diff between our
 	// last indexed commit and the current commit, and add files mentioned in the diff
@@ -993,6 +1008,16 @@ func prepareDeltaBuild(options Options, repository *git.Repository) (repos map[f
 			oldFile, newFile, err := changeFiles(c)
 			if err != nil {
 				return nil, nil, nil, fmt.Errorf("change #%d: getting files before and after change: %w", i, err)
+			}
+
+			// A side that the branch's ignore file excludes is not indexed by a normal
+			// build, so for the index there is no file on that side. (The ignore file
+			// itself is the same as in the last indexed commit, see below.)
+			if newFile != nil && c.To.Name != ignore.IgnoreFile && ignored(branch.Name, c.To.Name) {
+				newFile = nil
+			}
+			if oldFile != nil && c.From.Name != ignore.IgnoreFile && ignored(branch.Name, c.From.Name) {
+				oldFile = nil
 			}
 
 			if newFile != nil {
@@ -1035,6 +1060,10 @@ func prepareDeltaBuild(options Options, repository *git.Repository) (repos map[f
 			// The file is either modified or deleted. So, we need to add ALL versions
 			// of the old file (across all branches) to the build.
 			for b, currentTree := range branchToCurrentTree {
+				if ignored(b, oldFileRelativeRootPath) {
+					continue
+				}
+
 				f, err := currentTree.File(oldFileRelativeRootPath)
 				if err != nil {
 					// the file doesn't exist in this branch
